@@ -2,6 +2,7 @@ package bulk
 
 import (
 	"context"
+	"sync"
 
 	"github.com/cep21/circuit/v3"
 	"google.golang.org/grpc"
@@ -22,12 +23,13 @@ type vCall struct {
 }
 
 type vWorld struct {
-	log      []vCall
-	docs     []byte
-	metas    []byte
-	count    int64
-	shuffles int
-	execs    int
+	mu        sync.Mutex // replicas are called from concurrent goroutines in a native run
+	log       []vCall
+	docs      []byte
+	metas     []byte
+	count     int64
+	shuffles  int
+	execs     int
 	cancel    context.CancelFunc
 	cancelled bool
 }
@@ -45,6 +47,8 @@ type vClient struct {
 }
 
 func (c *vClient) Bulk(_ context.Context, in *storeapi.BulkRequest, _ ...grpc.CallOption) (*emptypb.Empty, error) {
+	vW.mu.Lock()
+	defer vW.mu.Unlock()
 	if vW.cancel != nil && rt.NondetBool() {
 		vW.cancel() // the request's context ends (deadline, client gone) while this call is in flight
 		vW.cancelled = true
@@ -122,8 +126,11 @@ func VerifReplicaSets() {
 	vW = &vWorld{docs: rt.NondetBytes(1), metas: rt.NondetBytes(1), count: int64(rt.NondetU8())}
 	util.VerifShuffle = vShuffle
 	circuitbreaker.VerifCircuitExecute = func(ctx context.Context, run func(context.Context) error) error {
+		vW.mu.Lock()
 		vW.execs++
-		if rt.NondetBool() { // open or throttled: the callback is not run and a circuit.Error of that kind comes back
+		refused := rt.NondetBool()
+		vW.mu.Unlock()
+		if refused { // open or throttled: the callback is not run and a circuit.Error of that kind comes back
 			return vCircuitErr{open: rt.Choose(2) == 0}
 		}
 		return run(ctx) // closed / half-open / timed out: the callback's own result comes back
